@@ -7,9 +7,9 @@ from e1 import DEFAULT_FEATURES as DF
 
 Q, T = "quick", "thorough"
 
-def e1(id, harness, bounds, desc, tier=Q, features=DF, timeout=900, witness=True):
+def e1(id, harness, bounds, desc, tier=Q, features=DF, timeout=900, witness=True, unwindset=None):
     return dict(id=id, engine="e1", harness=harness, features=features, tier=tier, bounds=bounds,
-                desc=desc, timeout=timeout, witness=witness)
+                desc=desc, timeout=timeout, witness=witness, unwindset=unwindset)
 
 BLAKE = "recursive,blake2s_248_lsb,stone6"
 K248 = "recursive,keccak_248_lsb,stone5"
@@ -43,14 +43,49 @@ PROPS["C11"] = dict(
     title="Config validation accepts exactly consistent, sufficiently secure configs",
     level="model_checking",
     obligations=[
-        e1("C11.exact.3steps_2inner", "c11_exact_3_2", "every number an arbitrary field element (n_bits any u8); 3 step sizes, 2 inner-layer configs supplied; layout column counts 1..=128", "StarkConfig::validate(..).is_ok() <=> integer predicate of the statement", timeout=1500),
-        e1("C11.exact.2steps_1inner", "c11_exact_2_1", "as above with 2 step sizes, 1 inner layer", "validate <=> predicate", timeout=1500),
-        e1("C11.exact.0steps_0inner", "c11_exact_0_0", "as above with empty vectors", "validate <=> predicate (must reject)", timeout=600, witness=False),
-        e1("C11.exact.3steps_1inner", "c11_exact_3_1", "vector lengths inconsistent (3 steps, 1 inner)", "validate <=> predicate", timeout=1500),
-        e1("C11.exact.2steps_2inner", "c11_exact_2_2", "vector lengths inconsistent (2 steps, 2 inner: surplus inner config)", "validate <=> predicate", timeout=1500),
-        e1("C11.exact.4steps_3inner", "c11_exact_4_3", "4 step sizes, 3 inner layers", "validate <=> predicate", tier=T, timeout=3600),
-        e1("C11.exact.5steps_4inner", "c11_exact_5_4", "5 step sizes, 4 inner layers", "validate <=> predicate", tier=T, timeout=7200),
+        e1("C11.exact.3steps_2inner", "c11_exact_3_2", "every number an arbitrary field element (n_bits any u8); 3 step sizes, 2 inner-layer configs supplied; layout column counts 1..=128", "StarkConfig::validate(..).is_ok() <=> integer predicate of the statement", timeout=1500, unwindset={"swiftness_fri::config::Config::validate": 5, "scen::c11::oracle": 5}),
+        e1("C11.exact.2steps_1inner", "c11_exact_2_1", "as above with 2 step sizes, 1 inner layer", "validate <=> predicate", timeout=1500, unwindset={"swiftness_fri::config::Config::validate": 4, "scen::c11::oracle": 5}),
+        e1("C11.exact.0steps_0inner", "c11_exact_0_0", "as above with empty vectors", "validate <=> predicate (must reject)", timeout=600, unwindset={"swiftness_fri::config::Config::validate": 2, "scen::c11::oracle": 5}, witness=False),
+        e1("C11.exact.3steps_1inner", "c11_exact_3_1", "vector lengths inconsistent (3 steps, 1 inner)", "validate <=> predicate", timeout=1500, unwindset={"swiftness_fri::config::Config::validate": 5, "scen::c11::oracle": 5}),
+        e1("C11.exact.2steps_2inner", "c11_exact_2_2", "vector lengths inconsistent (2 steps, 2 inner: surplus inner config)", "validate <=> predicate", timeout=1500, unwindset={"swiftness_fri::config::Config::validate": 4, "scen::c11::oracle": 5}),
+        e1("C11.exact.4steps_3inner", "c11_exact_4_3", "4 step sizes, 3 inner layers", "validate <=> predicate", tier=T, timeout=3600, unwindset={"swiftness_fri::config::Config::validate": 6, "scen::c11::oracle": 6}),
+        e1("C11.exact.5steps_4inner", "c11_exact_5_4", "5 step sizes, 4 inner layers", "validate <=> predicate", tier=T, timeout=7200, unwindset={"swiftness_fri::config::Config::validate": 7, "scen::c11::oracle": 7}),
     ],
     outside=["more than 5 FRI layers supplied (the loop body is uniform; 6..15 layers are outside the bound)",
              "layout column counts outside 1..=128 (none of the seven layouts)"],
+)
+
+def e2(prop=None, timeout=3600, args=None):
+    return dict(engine="e2", id="e2", prop=prop, timeout=timeout, args=args, tier=Q)
+
+E2_ASSUMPTIONS = [
+    "E2 trusted base: the Python front end under /verif/smt (parser + symbolic executor of a Rust subset; leaving the subset is reported inconclusive), validated per run by pushing seeded concrete field points through both the encoding and the real function (replay_e2)",
+    "ring identities with integer coefficients decided over the rationals (z3 reals) hold in F_p; roots of unity are formal powers of t in Z[t]/(t^8+1) after the concrete lemmas on the parsed literals",
+]
+
+PROPS["C15"] = dict(
+    title="Closed-form AIR boundary values equal their defining products",
+    level="model_checking",
+    technique="source-to-SMT translation of the real functions (parsed from /repo each run), z3 over reals/bit-vectors, native replay",
+    obligations=[e2("C15")],
+    assumptions=E2_ASSUMPTIONS,
+    outside=["n_bits > 16 / spacing > 4 for the ruler structure (the inductive step covers any n_bits)", "pages longer than the stated bound"],
+)
+PROPS["C16"] = dict(
+    title="Constraints and DEEP terms get independent random coefficients",
+    level="model_checking",
+    technique="source-to-SMT translation of the generated evaluators (hash-consed DAG), z3 linearity/non-vanishing queries, native replay with unit vectors",
+    obligations=[e2("C16")],
+    assumptions=E2_ASSUMPTIONS,
+    outside=["quick tier: dex, recursive, recursive_with_poseidon, small, starknet; thorough adds starknet_with_keccak and dynamic (12 flag vectors)",
+             "powers_array (the coefficients are powers of one challenge): see C08"],
+)
+PROPS["C12"] = dict(
+    title="Evaluation and trace domains have generators of exactly the right order",
+    level="other",
+    level_text="Structural solver check that StarkDomains::new computes the defining formula for every (t,c) (parsed source, uninterpreted pow/div), an integer SMT query for the exponent relation, plus a finite concrete table (orders of 3^((p-1)/2^k), k=0..192) that has no symbolic variable and is reported as a table, not as a solver result.",
+    technique="source-to-SMT (z3) for the formula structure and exponent relation + exhaustive concrete big-integer table for the 193 orders",
+    obligations=[e2("C12")],
+    assumptions=E2_ASSUMPTIONS,
+    outside=[],
 )
